@@ -12,6 +12,7 @@
 import Uec.Model.Rand
 import Uec.Lemmas.PushFrame
 import Uec.Props.C19
+import Uec.Props.C01
 namespace Uec.Props.C16
 open Uec
 
@@ -60,6 +61,34 @@ theorem eval_depends_on_lookup_only (s : PState) (i2 : List (String × Lit)) (h 
     Impl.runLoopG Spec.perform fuel k (s.withInputs i2) =
       (Impl.runLoopG Spec.perform fuel k s).mapState (·.withInputs i2) :=
   specRun_frame i2 fuel k s h
+
+mutual
+theorem bound_congr (i1 i2 : List (String × Lit)) (h : SameLookup i1 i2) : ∀ p : Prog, p.bound i1 = p.bound i2
+  | .instr (.inputVar n) => by simp only [Prog.bound, h n]
+  | .instr (.exec _) | .instr (.bool _) | .instr (.int _) | .instr (.float _) => rfl
+  | .instr .printSpace | .instr .printNewline | .instr .printPeriod | .instr (.printString _) => rfl
+  | .execPush q => by simp only [Prog.bound]; exact bound_congr i1 i2 h q
+  | .block ps => by simp only [Prog.bound]; exact boundList_congr i1 i2 h ps
+theorem boundList_congr (i1 i2 : List (String × Lit)) (h : SameLookup i1 i2) : ∀ ps : List Prog,
+    Prog.boundList i1 ps = Prog.boundList i2 ps
+  | [] => rfl
+  | p :: ps => by simp only [Prog.boundList, bound_congr i1 i2 h p, boundList_congr i1 i2 h ps]
+end
+
+/-- … and the same for the **code-shaped interpreter** on well-formed states: declaring the inputs in another
+    order (any binding list that resolves every name alike) changes nothing about the evaluation - outcome, step
+    count, stacks, output - for every step budget. -/
+theorem impl_eval_depends_on_lookup_only (s : PState) (i2 : List (String × Lit)) (h : SameLookup s.inputs i2)
+    (hwf : WF s) (fuel k : Nat) :
+    Impl.runLoop fuel k (s.withInputs i2) = (Impl.runLoop fuel k s).mapState (·.withInputs i2) := by
+  have hwf2 : WF (s.withInputs i2) :=
+    ⟨⟨hwf.sizes.exec, hwf.sizes.int, hwf.sizes.float, hwf.sizes.bool⟩, by
+      have := hwf.bound
+      simp only [PState.withInputs]
+      rw [← boundList_congr s.inputs i2 h]; exact this⟩
+  unfold Impl.runLoop
+  rw [C01.run_eq_spec fuel k _ hwf2, C01.run_eq_spec fuel k s hwf]
+  exact specRun_frame i2 fuel k s h
 
 /-- The builder resolves a name to the value last bound to it, wherever in the call sequence the
     binding was made (C19 `built`, `inputOf_of_mem`): two call sequences that bind the same names to
